@@ -110,13 +110,62 @@ class Check(PropertyCheck):
                                                      {"kind": "history", "spec": repr(spec), "run_context": rc}))
         finally:
             shutil.rmtree(tmp, ignore_errors=True)
+        nb += self.default_argument_programs()
         self.stat("oracle", "violations", nb)
         self.ob("oracle", "implementation oracle ran (results equal the context-aware reference, one and two executions)", True)
         strict = self.variant is not None and self.variant["ctx_strict"]
         if self.variant is not None and not strict and not any(f.key.startswith("cse:context-free") for f in self.findings):
             self.ob("tie-witness", "C05_refuted_as_shipped witness reproduces on the real code", False, "")
 
+    def default_argument_programs(self, only=None):
+        """A task call as default argument of a task called with a context override, and the same call made directly
+        under the outer context (seeded change C05b): one and two executions, cache on/off, every order."""
+        import logging
+        from redun import Scheduler
+        from redun.config import Config
+        from harness.progs import c05_tasks as T
+        logging.getLogger("redun").setLevel(logging.ERROR)
+        tmp = scratch_dir("rv_c05d_")
+        nb = 0
+        combos = [(shape, ok, ov, cache, runs) for shape in ("direct-first", "override-first", "shallow")
+                  for ok in ("none", 1, 3) for ov in (2, 1) for cache in (True, False) for runs in (1, 2) if ok != ov]
+        if only is not None:
+            combos = [tuple(only)]
+        try:
+            for i, (shape, outer_k, override, cache, runs) in enumerate(combos):
+                db = tmp / f"d{i}.db"
+                got = None
+                for r in range(runs):
+                    cfg = {"backend": {"db_uri": f"sqlite:///{db}"}}
+                    s = Scheduler(config=Config(cfg))
+                    s.load()
+                    s.logger.disabled = True
+                    ctx = {} if outer_k == "none" else {"k": outer_k}
+                    try:
+                        got = s.run(T.program(shape, override), cache=cache, context=ctx)
+                    except Exception as e:  # noqa: BLE001
+                        got = ("error", type(e).__name__, str(e)[:200])
+                    want = T.expected(shape, outer_k, override)
+                    self.evaluations += 1
+                    if norm(got) != norm(want):
+                        nb += 1
+                        self.findings.append(Finding(
+                            f"default-argument:{shape}:outer={outer_k}:override={override}:cache={cache}:run={r + 1}",
+                            f"got {got!r}, expected {want!r} (a call evaluated as a default argument under the overridden "
+                            f"context and the same call made directly under the outer context)",
+                            {"kind": "default-argument", "combo": [shape, outer_k, override, cache, runs]}))
+                        break
+        finally:
+            shutil.rmtree(tmp, ignore_errors=True)
+        return nb
+
     def replay(self, doc):
+        r0 = doc.get("replay", {})
+        if r0.get("kind") == "default-argument":
+            self.findings, self.evaluations = [], 0
+            n = self.default_argument_programs(only=r0["combo"])
+            print("replay:", "still fails: " + self.findings[0].what if n else "holds now")
+            return 1 if n else 0
         r = doc.get("replay", {})
         if "spec" in r:
             spec = eval(r["spec"])
